@@ -1,0 +1,53 @@
+//go:build verif
+
+package types
+
+// Machine-checked contracts for /verif's VC generator (govc); see ../keeper/verif_contracts.go.
+// Layouts are written with the literal offsets of the CCTP wire format (0,4,8,12,20,52,84,116 and
+// 0,4,36,68,100,132), never with the constants of constants.go, so that a consistent change on the
+// encoder and decoder side still fails. encMessage / encBurn are the prelude's layout functions.
+
+// ======================================================================= L1: wire formats (C16)
+
+//@ func (Message) Parse(bz) (out, err)
+//@ ensures[len]    (err != nil) <==> (len(bz) < 116)
+//@ ensures[nil]    err != nil ==> out == nil
+//@ ensures[fields] err == nil ==> out.Version == u32be(bz, 0) && out.SourceDomain == u32be(bz, 4) && out.DestinationDomain == u32be(bz, 8) && out.Nonce == u64be(bz, 12)
+//@ ensures[addrs]  err == nil ==> out.Sender == bz[20:52] && out.Recipient == bz[52:84] && out.DestinationCaller == bz[84:116]
+//@ ensures[body]   err == nil ==> out.MessageBody == bz[116:]
+
+//@ func (Message) Bytes() (out, err)
+//@ ensures[len]    (err == nil) <==> (len($recv.Sender) == 32 && len($recv.Recipient) == 32 && len($recv.DestinationCaller) == 32)
+//@ ensures[layout] err == nil ==> out == encMessage($recv.Version, $recv.SourceDomain, $recv.DestinationDomain, $recv.Nonce, $recv.Sender, $recv.Recipient, $recv.DestinationCaller, $recv.MessageBody)
+//@ ensures[nonnil] err == nil ==> out != nil
+
+//@ func (BurnMessage) Parse(bz) (out, err)
+//@ ensures[len]    (err != nil) <==> (len(bz) != 132)
+//@ ensures[nil]    err != nil ==> out == nil
+//@ ensures[fields] err == nil ==> out.Version == u32be(bz, 0) && out.BurnToken == bz[4:36] && out.MintRecipient == bz[36:68] && out.MessageSender == bz[100:132]
+//@ ensures[amount] err == nil ==> !out.Amount.isnil && out.Amount.v == u256be(bz, 68)
+
+// FillBytes panics on a nil or out-of-range amount: callers must establish the range.
+//@ func (BurnMessage) Bytes() (out, err)
+//@ requires[amount] !$recv.Amount.isnil && $recv.Amount.v >= 0
+//@ ensures[len]    (err == nil) <==> (len($recv.BurnToken) == 32 && len($recv.MintRecipient) == 32 && len($recv.MessageSender) == 32)
+//@ ensures[layout] err == nil ==> out == encBurn($recv.Version, $recv.BurnToken, $recv.MintRecipient, $recv.Amount, $recv.MessageSender)
+//@ ensures[nonnil] err == nil ==> out != nil
+
+// ---- round trips (C16): consequences of the four contracts above, proved over the layout functions
+
+//@ lemma C16.rt.message.decode-encode (bz: bytes)
+//@ assume len(bz) >= 116
+//@ prove encMessage(u32be(bz, 0), u32be(bz, 4), u32be(bz, 8), u64be(bz, 12), bz[20:52], bz[52:84], bz[84:116], bz[116:]) == bz
+
+//@ lemma C16.rt.message.encode-decode (v: uint32, s: uint32, d: uint32, n: uint64, snd: bytes, rcp: bytes, clr: bytes, body: bytes)
+//@ assume len(snd) == 32 && len(rcp) == 32 && len(clr) == 32
+//@ prove u32be(encMessage(v, s, d, n, snd, rcp, clr, body), 0) == v && u32be(encMessage(v, s, d, n, snd, rcp, clr, body), 4) == s && u32be(encMessage(v, s, d, n, snd, rcp, clr, body), 8) == d && u64be(encMessage(v, s, d, n, snd, rcp, clr, body), 12) == n && encMessage(v, s, d, n, snd, rcp, clr, body)[20:52] == snd && encMessage(v, s, d, n, snd, rcp, clr, body)[52:84] == rcp && encMessage(v, s, d, n, snd, rcp, clr, body)[84:116] == clr && encMessage(v, s, d, n, snd, rcp, clr, body)[116:] == body
+
+//@ lemma C16.rt.burn.decode-encode (bz: bytes)
+//@ assume len(bz) == 132
+//@ prove encBurn(u32be(bz, 0), bz[4:36], bz[36:68], u256be(bz, 68), bz[100:132]) == bz
+
+//@ lemma C16.rt.burn.encode-decode (v: uint32, tok: bytes, rcp: bytes, amt: amount, snd: bytes)
+//@ assume len(tok) == 32 && len(rcp) == 32 && len(snd) == 32 && amt >= 0
+//@ prove u32be(encBurn(v, tok, rcp, amt, snd), 0) == v && encBurn(v, tok, rcp, amt, snd)[4:36] == tok && encBurn(v, tok, rcp, amt, snd)[36:68] == rcp && u256be(encBurn(v, tok, rcp, amt, snd), 68) == amt && encBurn(v, tok, rcp, amt, snd)[100:132] == snd && len(encBurn(v, tok, rcp, amt, snd)) == 132
